@@ -314,8 +314,10 @@ def family_idem_clean():
     # request is in flight; the next message of the bumped partition arrives before the in-flight response
     cfg = dict(idem=True, retryMax=2, leaders=[1, 1], nbrokers=1)
     pl = {"1": {"hold": True}}
-    gates = [{"name": "m4_at_bp", "point": "bp.recv", "flags": "none", "retries": 0, "part": 0, "hwm": -1, "nth": 3}]
+    gates = [{"name": "m4_at_bp", "point": "bp.recv", "flags": "none", "retries": 0, "part": 0, "hwm": -1, "nth": 3},
+             {"name": "m2_at_bp", "point": "bp.recv", "flags": "none", "retries": 0, "part": 1, "hwm": -1, "nth": 1}]
     steps = submits([(1, 0)]) + [{"op": "wait_req", "n": 1, "ms": 1500}, {"op": "submit", "id": 2, "part": 1},
+                                 {"op": "wait_gate", "name": "m2_at_bp"}, {"op": "release_gate", "name": "m2_at_bp"}, {"op": "sleep", "ms": 30},
                                  {"op": "submit", "id": 3, "part": 0, "badenc": True}, {"op": "wait_outcomes", "n": 1, "ms": 1500},
                                  {"op": "submit", "id": 4, "part": 0}, {"op": "wait_gate", "name": "m4_at_bp"},
                                  {"op": "release_gate", "name": "m4_at_bp"}, {"op": "sleep", "ms": 60}, {"op": "release", "n": 1},
